@@ -242,3 +242,35 @@ func vfUnaryHandler(srv interface{}, ctx context.Context, dec func(interface{}) 
 	}
 	return interceptor(ctx, in, info, handler)
 }
+
+// vfStreamSrv is a bidirectional-streaming application: it drains the request stream, then sends
+// its scripted replies.
+type vfStreamSrv struct {
+	in      *fakeMD
+	got     [][]byte // raw payload of every request message, in order
+	recvErr error    // the error that ended the receive loop
+	replies []*fakeMsg
+	sendErr error
+	err     error
+	calls   int
+}
+
+func vfStreamHandler(srv interface{}, stream grpc.ServerStream) error {
+	s := srv.(*vfStreamSrv)
+	s.calls++
+	for i := 0; i < 16; i++ {
+		m := newFakeMsg(s.in)
+		if err := stream.RecvMsg(m); err != nil {
+			s.recvErr = err
+			break
+		}
+		s.got = append(s.got, m.raw)
+	}
+	for _, r := range s.replies {
+		if err := stream.SendMsg(r); err != nil {
+			s.sendErr = err
+			return err
+		}
+	}
+	return s.err
+}
